@@ -42,6 +42,11 @@ ENTRIES = ["ir", "proto"]
 FALLBACKS = ["default", False, True]
 
 
+def EXHAUSTIVE(tier):
+    # thorough enumerates the whole configuration space (template x s x t x entry x fallback); inputs/weights are sampled
+    return tier == "thorough"
+
+
 def thresholds(tier):
     q = tier != "thorough"
     k = 1 if q else 8
@@ -460,6 +465,10 @@ def judge(ctx, t, entry, fb, res):
         if unchanged and not (entry == "proto" and pass_modified):
             hit("not_converted_unchanged")
             info["outcome"] = "not_converted"
+            if direction == "up":
+                # 18 <= s < t <= 25 is the range the native converter supports: returning silently without converting is not a refusal
+                v(f"entry={entry};kind=silently_not_converted;dir=up;path={path}",
+                  f"up-conversion inside the supported range returned normally but the model still declares {d}")
             return viol, ev, info
         what_changed = _classify_change(ctx, after, s)
         if entry == "proto" and path in ("native", "capi") and pass_modified:
